@@ -24,6 +24,9 @@ CHECKS = {
  'C05': dict(engine='pool', tech='TLA+ pool actions SvdO/PinvO on generic fills and on islands with planted spectra; TLC enumerates split indices, options and overwrite; replay checks isometries, reconstruction, singular values, Penrose pseudoinverse and operand-unchanged',
              text='TLC enumerates all vector-type shapes x fills (incl. rank-deficient) x split indices x overwrite and the island catalogue x thresholds x rank caps x ortho flags (flags only after the matching sweep, as two-step histories); the model supplies the exact unfolding and planted spectrum, fixes which options have a determined effect, and requires the operand to be unchanged unless overwritten.',
              note='trusted: TLC, Islands.tla, numpy.linalg.svd/pinv of the exact integer unfolding as evaluator for general tensors', ref='§5 C05'),
+ 'C12': dict(engine='cases', tech='TLA+ reference semantics by state enumeration (spec/Slim.tla: master-equation generator as sum of elementary reaction terms; Ulam count tables), configurations enumerated by TLC, reference checked by TLC invariants (ColumnSumsZero, OffDiagNonNeg), results replayed against slim_mme / slim_mme_hom / ulam_2d / ulam_3d',
+             text='TLC enumerates state-space vectors with equal and unequal cell sizes, reaction-list shapes and seeds, open/cyclic, the homogeneous wrapper, every single two-cell reaction on two cells, and Ulam tables with duplicates and unsampled boxes; it computes the exact generator / count table and checks the generator invariants on the reference; the library operator is contracted and compared entry-wise.',
+             note='trusted: TLC, spec/Slim.tla, harness contraction; integer rates', ref='§5 C12'),
 }
 NA_REASON = 'check not built yet (work in progress)'
 
@@ -32,7 +35,9 @@ m = {"version": 1, "setup_cmd": "true",
                "baseline_off_cmd": "cd /repo && /venv/bin/python -m pytest -ra -q -p no:cacheprovider --timeout=900 --continue-on-collection-errors",
                "source_commits": [], "add_only": True},
      "engines": [
-         {"name": "pool", "path": "spec/TTPool.tla + harness/poolcheck.py", "serves_properties": sorted(CHECKS),
+         {"name": "cases", "path": "spec/<Module>.tla + harness/casecheck.py + harness/props/cXX.py", "serves_properties": sorted(k for k in CHECKS if CHECKS[k]["engine"] == "cases"),
+          "kind_free_text": "TLC enumerates configurations of a TLA+ reference model and emits the exact expected result per configuration; a replay function performs the real calls and compares"},
+         {"name": "pool", "path": "spec/TTPool.tla + harness/poolcheck.py", "serves_properties": sorted(k for k in CHECKS if CHECKS[k]["engine"] == "pool"),
           "kind_free_text": "TLA+ object-pool state machine of the TT class; TLC generates behaviours with exact expected states (spec->code replay) and validates recorded traces (code->spec)"}],
      "checks": [], "not_applicable": [],
      "notes": "All checks: ./check <id> [--tier quick|thorough]; replay a violation with ./check <id> --replay <path>. Known findings: KNOWN_FINDINGS.json."}
